@@ -66,6 +66,11 @@ def body(ck, F, cfg):
 
     ck.require(has_guard(pv.I, "prove_and_return_transcript", cap, N), "R01.3", "prover:padded-size", f"prover must size the proof by N = next_power_of_two(final gate count) = {N}")
     ck.require(has_guard(A["I"], "verification_scalars", cap, N), "R01.3", "verifier:padded-size", f"verifier must size the proof by N = next_power_of_two(final gate count) = {N}")
+    # R01.4: identical handles/gate counts on both roles (C16) and capacity guards (C17) are prerequisites of completeness
+    from . import C16, C17
+
+    C16.body(ck, F, cfg)
+    C17.body(ck, F, cfg)
     # the verifier's factor vectors agree with the prover's (g_f): prover side checked in ipp:G_factors/H_factors, verifier side in C02 R02.1
     ck.floor("prover sinks", len([o for o in ck.obligations if o[0] == "R01.1"]), 23)
     ck.floor("flatten arms", len([o for o in ck.obligations if o[0] == "R01.2"]), 22)
